@@ -226,6 +226,87 @@ func VerifC03_ReturnAndLoops() {
 	zzverif.Reach("return-loops")
 }
 
+// T7: two free variables of every runtime kind (the second one arrives as a
+// path parameter): expressions that are equal only up to operand order are not
+// the same expression (+ concatenates strings and arrays), loops whose body ends
+// by assigning the loop variable a constant.
+var zzOther vm.Value
+
+func runLevel2(r *ast.Route, level compiler.OptimizationLevel, input, other vm.Value) (outcome, bool) {
+	bc, err := compiler.NewCompilerWithOptLevel(level).CompileRoute(r)
+	if err != nil {
+		return outcome{}, false
+	}
+	m := vm.NewVM()
+	m.SetLocal("query", vm.ObjectValue{Val: map[string]vm.Value{}})
+	m.SetLocal("input", input)
+	m.SetLocal("other", other)
+	m.SetLocal("headers", vm.ObjectValue{Val: map[string]vm.Value{}})
+	m.SetMaxSteps(2000)
+	res, err := m.Execute(bc)
+	if err != nil {
+		return outcome{isErr: true}, true
+	}
+	return outcome{status: 200, val: fromVM(res)}, true
+}
+
+func VerifC03_TwoInputs() {
+	in, it := anyRuntime("input", 4)
+	ot, ott := anyRuntime("other", 4)
+	op := []ast.BinOp{ast.Add, ast.Mul, ast.Sub, ast.Eq, ast.Lt}[zzverif.Choice("op", 5)]
+	form := zzverif.Choice("form", 3)
+	k := &ast.LiteralExpr{Value: ast.IntLiteral{Value: zzverif.Int64("k")}}
+	name := ""
+	mk := func() *ast.Route {
+		r := &ast.Route{Path: "/t/:other", Method: ast.Get}
+		switch form {
+		case 0:
+			name = "cse-commuted-operands"
+			r.Body = []ast.Statement{
+				&ast.AssignStatement{Target: "p", Value: &ast.BinaryOpExpr{Op: op, Left: pvar("input"), Right: pvar("other")}},
+				&ast.AssignStatement{Target: "q", Value: &ast.BinaryOpExpr{Op: op, Left: pvar("other"), Right: pvar("input")}},
+				pret(pvar("q"))}
+		case 1:
+			name = "cse-same-operands"
+			r.Body = []ast.Statement{
+				&ast.AssignStatement{Target: "p", Value: &ast.BinaryOpExpr{Op: op, Left: pvar("input"), Right: pvar("other")}},
+				&ast.AssignStatement{Target: "q", Value: &ast.BinaryOpExpr{Op: op, Left: pvar("input"), Right: pvar("other")}},
+				pret(&ast.ArrayExpr{Elements: []ast.Expr{pvar("p"), pvar("q")}})}
+		default:
+			name = "loop-ends-by-assigning-constant"
+			r.Body = []ast.Statement{
+				&ast.AssignStatement{Target: "i", Value: pvar("input")},
+				&ast.AssignStatement{Target: "n", Value: &ast.LiteralExpr{Value: ast.IntLiteral{Value: 0}}},
+				&ast.WhileStatement{Condition: &ast.BinaryOpExpr{Op: ast.Lt, Left: pvar("i"), Right: k}, Body: []ast.Statement{
+					&ast.ReassignStatement{Target: "n", Value: &ast.BinaryOpExpr{Op: ast.Add, Left: pvar("n"), Right: &ast.LiteralExpr{Value: ast.IntLiteral{Value: 1}}}},
+					&ast.ReassignStatement{Target: "i", Value: k}}},
+				pret(pvar("n"))}
+		}
+		return r
+	}
+	mk()
+	shape := "two-inputs " + name + " " + it + " " + ott
+	base, ok0 := runLevel2(mk(), compiler.OptNone, in, ot)
+	for _, lv := range []compiler.OptimizationLevel{compiler.OptBasic, compiler.OptAggressive} {
+		got, ok := runLevel2(mk(), lv, in, ot)
+		if ok0 != ok {
+			zzverif.Fail(shape + " compile-outcome-differs")
+			continue
+		}
+		if !ok {
+			continue
+		}
+		if class(base) != class(got) {
+			zzverif.Fail(shape)
+			continue
+		}
+		if !base.isErr {
+			zzverif.Assert(sameValue(base.val, got.val), shape)
+		}
+	}
+	zzverif.Reach("two-inputs")
+}
+
 func VerifC03_Twin() {
 	a := &ast.LiteralExpr{Value: ast.IntLiteral{Value: zzverif.Int64("a")}}
 	r := routeOf(pret(&ast.BinaryOpExpr{Op: ast.Add, Left: a, Right: &ast.LiteralExpr{Value: ast.IntLiteral{Value: 1}}}))
